@@ -247,6 +247,11 @@ func (e *EngineImpl) Assign(opId uint64, nodeId uint64, db string, ptId uint32, 
 	e.log.Info("[ASSIGN]start replay for replication", zap.String("db", db), zap.Uint32("pt", ptId), zap.Int("replicasN", dbBriefInfo.Replicas))
 	// replay is complete before 'assign' operation is complete.
 	readReplayForReplication(dbPt.ReplayC, client, storage, db, ptId)
+	if dbPt.replayDone != nil {
+		// from here on the commit loop may apply what raft has committed since the node started
+		close(dbPt.replayDone)
+		dbPt.replayDone = nil
+	}
 	e.log.Info("[ASSIGN]finish replay for replication", zap.String("db", db), zap.Uint32("pt", ptId), zap.Int("replicasN", dbBriefInfo.Replicas))
 	dbPt.enableReportShardLoad()
 	dbPt.preload = false
